@@ -201,7 +201,7 @@ pub fn run(run: &Run) {
     if !st.is_empty() { for f in st.iter().take(5) { run.inconclusive(format!("validator self-test: {}", f)); } return; }
     run.count("validator_self_test_passed");
 
-    let n = run.n(4_000, 200_000);
+    let n = run.n(4_000, 1_000_000);
     let found: Mutex<Vec<Found>> = Mutex::new(Vec::new());
     par_chunks(n, 50, |lo, hi| {
         let mut local: BTreeMap<String, u64> = BTreeMap::new();
